@@ -11,7 +11,7 @@ PROP = dict(
                        "Comdex.C09.sweep_live_partial", "Comdex.C09.two_sweeps_if_one_shift",
                        "Comdex.C09.two_sweeps_counterexample", "Comdex.C09.unsafe_processed_is_seized",
                        "Comdex.C09.v2_borrow_pass_clobbers_vault_offset", "Comdex.C09.v2_vault_starved_counterexample",
-                       "Comdex.C09.v2_repaired_witness_seized",
+                       "Comdex.C09.v2_repaired_witness_seized", "Comdex.C09.v2_borrow_sweep_leak_counterexample",
                        "Comdex.C09.seize_moves_exactly_collateral", "Comdex.C09.seize_opens_one_auction"],
     harness_tests=["TestC09"],
     trusted_base=[KERNEL_TB, HARNESS_TB, DEC_TB,
